@@ -159,6 +159,65 @@ def result_nodes(outs):
     return res
 
 
+NODE_BY_OPERATOR = {"+": ("ArithmeticOp", "ArithmeticType"), "-": ("ArithmeticOp", "ArithmeticType"), "*": ("ArithmeticOp", "ArithmeticType"),
+                    "/": ("ArithmeticOp", "ArithmeticType"), "%": ("ArithmeticOp", "ArithmeticType"),
+                    "&": ("BitOp", "BitOperationType"), "|": ("BitOp", "BitOperationType"), "^": ("BitOp", "BitOperationType"), "<<": ("BitOp", "BitOperationType"), ">>": ("BitOp", "BitOperationType"),
+                    "<": ("CompareOp", "CompareOpType"), ">": ("CompareOp", "CompareOpType"), "<=": ("CompareOp", "CompareOpType"), ">=": ("CompareOp", "CompareOpType"),
+                    "==": ("CompareOp", "CompareOpType"), "!=": ("CompareOp", "CompareOpType"), "&&": ("BooleanOp", "BooleanOpType"), "||": ("BooleanOp", "BooleanOpType")}
+
+
+def binary_productions(gm):
+    """(operator literal, callback, terminal name) for every `X OP Y` alternative of the expression tower, read off the grammar."""
+    from .c17 import derive_tower, term_literals
+
+    out = []
+    for name, _, nxt in derive_tower(gm)[2:12]:
+        for a in gm.rules[name]:
+            syms = a.symbols
+            if len(syms) == 3 and syms[1][1]:
+                lits = term_literals(gm, syms[1][0]) or set()
+                for lit in sorted(lits):
+                    out.append((lit, str(a.callback), syms[1][0]))
+    return out
+
+
+@rule("R02.2", "C02", "spelling chain: the operator token of every binary production reaches a node of the right class whose operator member is spelled like the token", min_instances=18)
+def r02_2(ctx):
+    from sa.larkmodel import get_grammar, transformer_callbacks
+
+    idx = get_index(ctx.env)
+    gm = get_grammar(ctx.env)
+    cbs = transformer_callbacks(idx)
+    prods = binary_productions(gm)
+    ctx.need(len(prods) >= 18, f"only {len(prods)} binary productions derived from the grammar")
+    for lit, cb, term in prods:
+        ctx.need(lit in NODE_BY_OPERATOR, f"binary operator {lit!r} of the grammar is not in the oracle")
+        ncls, ecls = NODE_BY_OPERATOR[lit]
+        if cb not in cbs:
+            ctx.check(f"production {cb}[{lit}] has a callback", False, f"callback {cb}", "none: the production yields a raw Tree", gm.where(cb))
+            continue
+        r = Runner(idx)
+        r.fold = False
+        fi, outs = r.run(cb, lambda: [r.pure("items[0]", vt=mk_vt("t0", True, 32)), Tok(term, lit), r.pure("items[2]", vt=mk_vt("t2", True, 32))])
+        good = [o for o in outs if o.kind != "raise"]
+        ctx.need(good, f"{cb}[{lit}] has no translating path")
+        for o in good:
+            v = o.value
+            opt = (ctor(v, "op_type") or ctor(v, "arith_type")) if isinstance(v, AObj) else None
+            ok = isinstance(v, AObj) and v.cls == ncls and isinstance(opt, EnumV) and opt.cls == ecls and opt.value == lit
+            ctx.check(f"{cb}[{term} {lit!r}] node and operator member", ok, f"{ncls} with {ecls} member spelled {lit!r}", f"{v.cls if isinstance(v, AObj) else lab(v)} with {to_text(opt)}", fn_where(idx, fi))
+    # unary operators
+    from .c17 import term_literals
+    for lit, ncls in (("~", "BitOp"), ("-", "BitOp"), ("!", "BooleanOp")):
+        r = Runner(idx)
+        r.fold = False
+        fi, outs = r.run("unary_expr", lambda: [Tok("UNARY_OP", lit), r.pure("items[1]", vt=mk_vt("t1", True, 32))])
+        for o in [o for o in outs if o.kind != "raise"]:
+            v = o.value
+            opt = ctor(v, "op_type") if isinstance(v, AObj) else None
+            ctx.check(f"unary_expr[{lit!r}] node and operator member", isinstance(v, AObj) and v.cls == ncls and isinstance(opt, EnumV) and opt.value == lit, f"{ncls} member spelled {lit!r}", f"{v.cls if isinstance(v, AObj) else lab(v)} with {to_text(opt)}", fn_where(idx, fi))
+
+
 @rule("R02.3", "C02", "conversion obligations: operands reach each operator node through promotion and common-type conversion in source order", min_instances=19)
 def r02_3(ctx):
     idx = get_index(ctx.env)
